@@ -142,7 +142,9 @@ def run(ctx):
     #      t then t (1 + 1e-6)): every call is exp(-i t_k H) for its own t_k ------------------------------------------
     for case in range(6 if quick else 40):
         norb = rng.choice([2, 3])
-        made = make_case(ctx, rng, "taylor-dense", norb)
+        # every dense class (the Taylor route rebuilds its generator from the caller's object in a class-specific way)
+        sroute = ["taylor-dense", "diagcoulomb", "taylor-dense", "diagonal", "quadratic", "diagcoulomb"][case % 6]
+        made = make_case(ctx, rng, sroute, norb)
         if made is None:
             continue
         ham, terms, e0, wk = made[:4]
@@ -153,6 +155,7 @@ def run(ctx):
             continue
         H = hmatrix(d, norb, dets, terms, e0)
         psi = vec_of(w, dets)
+        ctx.count(f"successive-times:{sroute}")
         t0 = rng.choice([0.05, 0.3, 0.8])
         times = [t0, t0 * (1 + 1e-6), t0 * (1 - 3e-6), t0 + 1e-8, 2 * t0]
         for k_, tk in enumerate(times):
